@@ -5,6 +5,7 @@ from gen import *
 from oracle_util import *
 import ops
 import numpy as np
+import json
 
 ID = 'C18'
 STRICT_ERR = False
@@ -121,6 +122,29 @@ def oracle(case, res):
             got = np.take(np.array([float('nan') if isinstance(c, dict) else float(c) for c in rr['flat']]).reshape(rr['shape']), k, axis=p)
             orig = np.take(v, j, axis=p)
             if not np.array_equal(got, orig, equal_nan=True): return 'original values not reproduced at the existing label %r' % (q,)
+    # the Dataset variant agrees with the array one; a variable lacking the axis is handed over unchanged
+    D = da()
+    try:
+        with warnings.catch_warnings():
+            warnings.simplefilter('ignore')
+            with np.errstate(all='ignore'):
+                ds = D.Dataset(); ds['v'] = arr
+                if arr.ndim > 1: ds['w'] = arr.take({a['dims'][p]: 0}, indexing='position')
+                kw = {}
+                if left is not None: kw['left'] = left
+                if right is not None: kw['right'] = right
+                rds = ds.interp_axis(ops.labs_np(pts, kind), axis=a['dims'][p], **kw)
+                gv = arr_json(rds['v'])
+    except Exception as e:
+        return 'Dataset.interp_axis raised %s where the array method succeeds' % type(e).__name__
+    if obs_dims(gv) != obs_dims(rr) or len(gv['flat']) != len(rr['flat']): return 'Dataset.interp_axis: dims / shape differ from the array result'
+    for g, y in zip(gv['flat'], rr['flat']):
+        if isinstance(g, dict) != isinstance(y, dict) or (not isinstance(g, dict) and abs(float(g) - float(y)) > 1e-9 * (1 + abs(float(y)))):
+            return 'Dataset.interp_axis gives %r where DimArray.interp_axis gives %r (left=%r right=%r)' % (g, y, left, right)
+    if not labs_eq(gv['axes'][p]['labels'], pts): return 'Dataset.interp_axis: axis is not the new points'
+    if arr.ndim > 1:
+        w0 = arr_json(arr.take({a['dims'][p]: 0}, indexing='position')); w1 = arr_json(rds['w'])
+        if json.dumps(w0, sort_keys=True, default=str) != json.dumps(w1, sort_keys=True, default=str): return 'Dataset.interp_axis changed a variable that lacks the axis'
     return None
 
 def nontrivial(case, res):
